@@ -1,6 +1,10 @@
 package world
 
 import (
+	"bytes"
+	"encoding/hex"
+	"fmt"
+
 	"github.com/koron-go/z80"
 )
 
@@ -27,6 +31,10 @@ type Machine struct {
 	Presented []*z80.Interrupt        // every request the controller put into the slot, in order
 	Hook      func(m *Machine, a Acc) // extra per-access hook (after the controller)
 	NoPresent bool                    // when set the controller never touches cpu.Interrupt
+	// BoundaryOnly: the controller presents between Steps only, never from inside a device callback (for
+	// comparisons between worlds whose devices do not all call back)
+	BoundaryOnly bool
+	posted       []*z80.Interrupt // requests devices wrote into the slot during the current Step
 	// RestoreHALT: Restore also copies the HALT field (C09's crash event keeps it; C10 does not:
 	// its statement lists registers, flags, IFF/IM and the pending request only).
 	RestoreHALT bool
@@ -59,6 +67,18 @@ func NewMachine(regs Regs, segs []Seg, ioSeed uint64, evs []Event) (*Machine, er
 // same pointer into cpu.Interrupt every time (`var irq = z80.IM1Interrupt()`),
 // so anything the library writes into a request survives to its next use.
 func (m *Machine) request(i int) *z80.Interrupt {
+	q := m.request1(i)
+	// whatever way the value was made, it must carry the bytes the device means to put on the bus (the
+	// constructors are given a buffer of the host's that the host goes on using: see Event.Request)
+	if e := m.evs[i]; e.Kind == EvINT && e.Data != "" && m.Mutated == "" {
+		if d, _ := hex.DecodeString(e.Data); !bytes.Equal(q.Data, d) {
+			m.Mutated = fmt.Sprintf("the request made through the library's constructor from the bytes %s holds %x once the host has gone on using its own buffer", e.Data, q.Data)
+		}
+	}
+	return q
+}
+
+func (m *Machine) request1(i int) *z80.Interrupt {
 	if !m.ReuseRequests {
 		return m.evs[i].Request()
 	}
@@ -116,7 +136,15 @@ func (m *Machine) present() {
 	}
 	m.CPU.Interrupt = m.queue[k]
 	m.Presented = append(m.Presented, m.queue[k])
+	m.posted = append(m.posted, m.queue[k])
 	m.queue = append(m.queue[:k], m.queue[k+1:]...)
+}
+
+// Post is a device writing the slot from inside a callback without looking at it first (hooks of the
+// property executors use it, so that the Step in progress knows).
+func (m *Machine) Post(q *z80.Interrupt) {
+	m.CPU.Interrupt = q
+	m.posted = append(m.posted, q)
 }
 
 func (m *Machine) onAccess(b *Bus, a Acc) {
@@ -125,13 +153,16 @@ func (m *Machine) onAccess(b *Bus, a Acc) {
 			if m.evs[i].Force && !m.NoPresent {
 				m.raised[i] = true
 				m.CPU.Interrupt = m.request(i)
+				m.posted = append(m.posted, m.CPU.Interrupt)
 				m.Raised["forced/"+m.evs[i].Kind]++
 				continue
 			}
 			m.enqueue(i, "tick")
 		}
 	}
-	m.present()
+	if !m.BoundaryOnly {
+		m.present()
+	}
 	if m.Hook != nil {
 		m.Hook(m, a)
 	}
@@ -144,7 +175,9 @@ func (m *Machine) onRet() {
 			break
 		}
 	}
-	m.present()
+	if !m.BoundaryOnly {
+		m.present()
+	}
 }
 
 // Boundary is what the host does between two Steps: raise the events placed
@@ -208,7 +241,12 @@ type StepInfo struct {
 	Before   z80.States
 	Req      *z80.Interrupt // request in the slot when the Step began
 	Accepted bool           // the Step consumed Req
-	Halted   bool           // bus history shows an executed HALT: one fetch of 0x76 at PC, PC unmoved
+	// PostedDuring: a device wrote the slot while the Step was under way (possible in the middle of an
+	// acceptance if the library empties the slot first, and always for devices that do not look before
+	// they write). Whether the library leaves such a request in the slot or drops it together with the
+	// one it has just served no statement says: after such a Step the slot may hold it or be empty.
+	PostedDuring bool
+	Halted       bool // bus history shows an executed HALT: one fetch of 0x76 at PC, PC unmoved
 }
 
 // Step performs the boundary actions and one cpu.Step.
@@ -226,9 +264,30 @@ func (m *Machine) StepNoBoundary() StepInfo {
 	si.Before = m.CPU.States
 	si.Req = m.CPU.Interrupt
 	m.Bus.ResetLog()
+	m.posted = m.posted[:0]
+	var kept *z80.Interrupt
+	if m.ReuseRequests && si.Req != nil {
+		kept = CloneRequest(si.Req) // the host keeps this value and will present it again
+	}
 	m.CPU.Step()
 	m.Steps++
-	if si.Req != nil && m.CPU.Interrupt == nil {
+	if kept != nil && !SameRequest(kept, si.Req) && m.Mutated == "" {
+		m.Mutated = "the request value the host keeps and presents again later was " + FmtRequest(kept) + " before this Step and is " + FmtRequest(si.Req) + " after it: the library wrote into it"
+	}
+	consumed := si.Req != nil && m.CPU.Interrupt == nil
+	if si.Req != nil && len(m.posted) > 0 {
+		// what the slot holds now says nothing about the request the Step began with. An acceptance Step
+		// runs no program instruction: it does not begin with the opcode fetch at PC. (Without a memory
+		// history - library memory types - the slot no longer holding the request object decides.)
+		si.PostedDuring = true
+		if _, rec := m.CPU.Memory.(busMem); rec {
+			l := m.Bus.Log
+			consumed = !(len(l) > 0 && l[0].Kind == MR && l[0].Addr == si.Before.PC)
+		} else {
+			consumed = m.CPU.Interrupt != si.Req
+		}
+	}
+	if consumed {
 		si.Accepted = true
 		m.Accepted++
 		m.AccSP = append(m.AccSP, si.Before.SP)
